@@ -364,6 +364,24 @@ func runC16Caps(c *fw.Case) (o fw.Outcome) {
 				o.Fail("capability", "NEA%d/NIA%d: %s", ea, ia, msg)
 				return
 			}
+			// ... and still after the context has been through an authentication: what a UE advertised before the keys
+			// existed is what it uses afterwards
+			k, opc := rbytes(c.R, 16), rbytes(c.R, 16)
+			ue.AuthenticationSubs = tglib.GetAuthSubscription(hexs(k), hexs(opc), "")
+			var autn [16]byte
+			copy(autn[:], rbytes(c.R, 16))
+			func() {
+				defer func() { recover() }()
+				ue.DeriveRESstarAndSetKey(ue.AuthenticationSubs, autn, rbytes(c.R, 16), "5G:mnc001.mcc001.3gppnetwork.org", "01", "001")
+			}()
+			if ue.CipheringAlg != ea || ue.IntegrityAlg != ia {
+				o.Fail("capability-after-authentication", "a context created with NEA%d/NIA%d holds NEA%d/NIA%d after DeriveRESstarAndSetKey", ea, ia, ue.CipheringAlg, ue.IntegrityAlg)
+				return
+			}
+			if msg := capMismatch(ue); msg != "" {
+				o.Fail("capability-after-authentication", "NEA%d/NIA%d after DeriveRESstarAndSetKey: %s", ea, ia, msg)
+				return
+			}
 		}
 	}
 	// the emulator's own choice
